@@ -11,7 +11,141 @@ import (
 
 // builtinModel returns nil when the call has no built-in model.
 func (v *Verifier) builtinModel(s *State, full string, fn *types.Func, recv *Term, args []*Term, call *ast.CallExpr) []*Term {
+	switch full {
+	case "slices#IndexFunc", "slices#ContainsFunc":
+		return v.modelIndexFunc(s, full == "slices#ContainsFunc", args, call)
+	case "slices#Delete":
+		return v.modelSlicesDelete(s, args, call)
+	case "slices#Clone", "bytes#Clone":
+		return v.modelClone(s, args, call)
+	}
 	return nil
+}
+
+// litPredicate evaluates a single-result function literal (or the literal bound
+// to a function value) on a symbolic argument, inside a quantifier: obligations
+// raised while evaluating are collected and returned as one condition.
+func (v *Verifier) litPredicate(s *State, fv *Term, arg *Term, pos ast.Node) (res *Term, safe *Term) {
+	if !fv.isInt() {
+		unsupported("higher-order call with unknown function value")
+	}
+	li, ok := v.lits[int(-fv.Int.Int64()-1000)]
+	if !ok {
+		unsupported("higher-order call with a non-literal function")
+	}
+	var conds []*Term
+	saveHook := v.obligeHook
+	n0 := len(s.pc)
+	v.obligeHook = func(st *State, g *Term) {
+		// the obligation holds under the path condition accumulated inside the literal
+		extra := st.pc[min(n0, len(st.pc)):]
+		conds = append(conds, Implies(And(extra...), g))
+	}
+	v.inQuant++
+	work := s.clone()
+	rs := v.inlineLit(work, li.lit, li.pkg, []*Term{arg}, pos.Pos())
+	v.inQuant--
+	v.obligeHook = saveHook
+	if len(rs) != 1 {
+		unsupported("predicate literal with %d results", len(rs))
+	}
+	// definitions introduced while evaluating (named intermediate values)
+	extra := work.pc[min(n0, len(work.pc)):]
+	return v.substDefs(rs[0], extra), And(conds...)
+}
+
+// substDefs inlines the equations c = t that name intermediate values.
+func (v *Verifier) substDefs(t *Term, defs []*Term) *Term {
+	m := map[string]*Term{}
+	for _, d := range defs {
+		if d.Op == "=" && len(d.Args) == 2 && len(d.Args[0].Args) == 0 && !d.Args[0].IsLit {
+			m[d.Args[0].Op] = d.Args[1]
+		}
+	}
+	for i := 0; i < 8 && len(m) > 0; i++ {
+		n := t.Subst(m)
+		if n == t {
+			break
+		}
+		t = n
+	}
+	return t
+}
+
+func (v *Verifier) modelIndexFunc(s *State, contains bool, args []*Term, call *ast.CallExpr) []*Term {
+	st, ok := v.typeOf(call.Args[0]).Underlying().(*types.Slice)
+	if !ok {
+		unsupported("IndexFunc on non-slice")
+	}
+	sl := args[0]
+	j := v.fresh("j", SInt)
+	_, h, _ := v.sliceHeap(s, st.Elem())
+	elem := Select(v.hsel(s, h, SBase(sl)), Add(SOff(sl), j))
+	pj, safe := v.litPredicate(s, args[1], elem, call)
+	inr := And(Le(IntLit(0), j), Lt(j, SLen(sl)))
+	if !safe.isTrue() {
+		v.oblige(s, "nopanic", "predicate", v.forallR([]*Term{j}, Implies(inr, safe)), call.Pos(), "predicate literal does not panic on any element")
+	}
+	r := v.fresh("idx", SInt)
+	pAt := func(i *Term) *Term { return pj.Subst(map[string]*Term{j.Op: i}) }
+	k := v.fresh("k", SInt)
+	none := v.forallR([]*Term{k}, Implies(And(Le(IntLit(0), k), Lt(k, SLen(sl))), Not(pAt(k))))
+	k2 := v.fresh("k", SInt)
+	first := And(Le(IntLit(0), r), Lt(r, SLen(sl)), pAt(r), v.forallR([]*Term{k2}, Implies(And(Le(IntLit(0), k2), Lt(k2, r)), Not(pAt(k2)))))
+	s.assume(Or(And(Eq(r, IntLit(-1)), none), first))
+	if contains {
+		return []*Term{Neq(r, IntLit(-1))}
+	}
+	return []*Term{v.goInt(r)}
+}
+
+// slices.Delete(s, i, j): shifts s[j:] down to i, zeroes the vacated tail, returns s[:len-(j-i)].
+func (v *Verifier) modelSlicesDelete(s *State, args []*Term, call *ast.CallExpr) []*Term {
+	st, ok := v.typeOf(call.Args[0]).Underlying().(*types.Slice)
+	if !ok {
+		unsupported("slices.Delete on non-slice")
+	}
+	sl := args[0]
+	i := v.idxInt(args[1], v.typeOf(call.Args[1]))
+	j := v.idxInt(args[2], v.typeOf(call.Args[2]))
+	g := And(Le(IntLit(0), i), Le(i, j), Le(j, SLen(sl)))
+	v.oblige(s, "nopanic", "slices.Delete", g, call.Pos(), "slices.Delete: 0 <= i <= j <= len(s)")
+	s.assume(g)
+	name, h, es := v.sliceHeap(s, st.Elem())
+	old := v.hsel(s, h, SBase(sl))
+	na := v.fresh("arr", SArr(SInt, es))
+	q := v.fresh("q", SInt)
+	d := Sub(j, i)
+	off := SOff(sl)
+	rel := Sub(q, off)
+	newLen := Sub(SLen(sl), d)
+	body := Eq(Select(na, q),
+		Ite(And(Le(i, rel), Lt(rel, newLen)), Select(old, Add(q, d)),
+			Ite(And(Le(newLen, rel), Lt(rel, SLen(sl))), zeroOfSort(es), Select(old, q))))
+	s.assume(Forall([]*Term{q}, body, mk("select", es, na, q)))
+	s.heaps[name] = Store(h, SBase(sl), na)
+	return []*Term{MkSlice(SBase(sl), off, newLen, SCap(sl))}
+}
+
+// slices.Clone / bytes.Clone: a fresh slice with the same elements (nil stays nil).
+func (v *Verifier) modelClone(s *State, args []*Term, call *ast.CallExpr) []*Term {
+	st, ok := v.typeOf(call.Args[0]).Underlying().(*types.Slice)
+	if !ok {
+		unsupported("Clone of non-slice")
+	}
+	sl := v.name(s, "cl", args[0])
+	name, h, es := v.sliceHeap(s, st.Elem())
+	old := v.hsel(s, h, SBase(sl))
+	na := v.fresh("arr", SArr(SInt, es))
+	q := v.fresh("q", SInt)
+	body := Eq(Select(na, q), Ite(And(Le(IntLit(0), q), Lt(q, SLen(sl))), Select(old, Add(SOff(sl), q)), zeroOfSort(es)))
+	s.assume(Forall([]*Term{q}, body, mk("select", es, na, q)))
+	nb := v.allocRef(s)
+	s.heaps[name] = Store(h, nb, na)
+	cp := v.fresh("cap", SInt)
+	s.assume(And(Ge(cp, SLen(sl)), Le(cp, IntLitB(maxLen))))
+	isNil := Eq(SBase(sl), IntLit(0))
+	return []*Term{Ite(isNil, NilSlice, MkSlice(nb, IntLit(0), SLen(sl), cp))}
 }
 
 func (v *Verifier) markCallWrites(ms *loopModSet, call *ast.CallExpr) {
@@ -91,6 +225,10 @@ func (v *Verifier) markCallWrites(ms *loopModSet, call *ast.CallExpr) {
 			}
 			for it.Kind == "slice" {
 				it = it.X
+			}
+			if it.Kind == "call" && it.X.Kind == "ident" && it.X.Name == "contents" {
+				ms.heapAll = true // conservative inside loops
+				continue
 			}
 			switch {
 			case it.Kind == "ident" && it.Name == "all":
@@ -174,4 +312,10 @@ func (v *Verifier) markBaseWrite(ms *loopModSet, e ast.Expr) {
 	default:
 		ms.heapAll = true
 	}
+}
+
+// forallR builds a universal quantifier with index variables re-based (see reindexQuant).
+func (v *Verifier) forallR(vars []*Term, body *Term) *Term {
+	vars, body = v.reindexQuant(append([]*Term(nil), vars...), body)
+	return Forall(vars, body)
 }
